@@ -272,6 +272,8 @@ fn cont_alphabet() -> Vec<Op> {
         Op::Create(QB),
         Op::Delete(QA),
         Op::Reopen,
+        // the caller retries its last append with the same explicit position
+        Op::app(QA, Pos::Retry, Sz::S3),
     ]
 }
 
